@@ -25,7 +25,9 @@ MASS = {"C": 1201, "N": 1401, "O": 1600, "H": 101}
 WEIGHT = {"C": 3, "N": 4, "O": 5, "H": 1}   # small integer weights for the weighted Rg (TLC integers are 32 bit)
 MIXED = [(1, 3), (1, 5), (2, 4), (5, 9), (3, 7)]                 # 1-based; residues 5 and 9 are waters
 GIVEN = [(1, 2), (1, 3), (2, 4), (3, 7), (6, 8), (4, 11), (2, 8), (10, 11)]
-CELLS = [[[24, 0, 0], [0, 26, 0], [0, 0, 28]], [[24, 0, 0], [-8, 24, 0], [-6, -7, 22]]]
+CELLS = [[[24, 0, 0], [0, 26, 0], [0, 0, 28]], [[24, 0, 0], [-8, 24, 0], [-6, -7, 22]],
+         # twice as large: every minimum image between the residues of the model is unique (periodic dipole moment)
+         [[48, 0, 0], [0, 52, 0], [0, 0, 56]], [[48, 0, 0], [-16, 48, 0], [-12, -14, 44]]]
 
 
 def model_topology(which="model"):
@@ -69,7 +71,7 @@ def gen_cases(seed, n, tab, which="model", first_id=0):
     out = []
     for i in range(n):
         periodic = bool(i % 2)
-        cell = CELLS[(i // 2) % 2]
+        cell = CELLS[(i // 2) % 4]
         cm = np.array(cell)
         centres = rs.randint(2, 18, size=(nres, 3))
         pos = []
@@ -250,6 +252,11 @@ def _check(task):
             ms = np.array([top.atom(int(i)).element.mass for i in sorted(sel)], dtype=float)      # (the 0.01 dalton rounding of the table matters for 4 atoms)
             if np.abs(cs - (ms[:, None] * P[sorted(sel)]).sum(0) / ms.sum() * G).max() > 3e-4:
                 probs.append("compute_center_of_mass(select=...) differs from the centre of mass of the selected atoms"); break
+    if per and exp.get("dipole_p_ok"):
+        # periodic cell, residues with net charges scattered over images: the documented minimum-image construction
+        dmp = md.dipole_moments(t, np.array(case["charges"], dtype=float))[0]
+        if np.abs(dmp - np.array(exp["dipole_p"]) * G).max() > 3e-4 * (1 + np.abs(dmp).max()):
+            probs.append("dipole_moments (periodic) differs from sum q (mic(r_first - r_0) + mic(r - r_first)): got %s expected %s" % (np.round(dmp, 4).tolist(), (np.array(exp["dipole_p"]) * G).round(4).tolist()))
     dens = md.density(t, masses=w / 100.0)[0]
     if abs(dens - exp["mass"] / 100.0 / (exp["vol"] * G ** 3) * 1.6605387823355087) > 1e-4 * dens:
         probs.append("density differs from mass / volume")
@@ -348,7 +355,7 @@ def run(ctx):
         msg = "; ".join(val) if st == "ok" else "%s: %s" % (st, str(val)[:200])
         ctx.discrepancy(None, "case %d (periodic=%s, cell %s): %s" % (tk[0]["id"], tk[0]["periodic"], tk[0]["cell"], msg[:500]), dict(case=tk[0]),
                         cls=(val[0].split(":")[0] if st == "ok" else st)[:80])
-    cov = dict(traces_validated_against_impl=len(cases) * 16, configurations=len(cases), replays_failing=nfail, samples=[dict(pos=cases[0]["pos"][:6], expected_contacts_all=exp[cases[0]["id"]]["all"][0])],
+    cov = dict(traces_validated_against_impl=len(cases) * 16, periodic_dipole_cases=sum(1 for e in exp.values() if e.get("dipole_p_ok")), configurations=len(cases), replays_failing=nfail, samples=[dict(pos=cases[0]["pos"][:6], expected_contacts_all=exp[cases[0]["id"]]["all"][0])],
                explanation="random lattice placements (plain and scattered over periodic images, orthorhombic and triclinic cells) of an 11-residue, two-chain model topology (glycines, waters without CA, "
                            "hydrogens, unequal residue sizes); TLC evaluates Descriptors.tla exactly; replayed: compute_contacts for 'all' and explicit pairs in all five schemes (labels and minima), squareform, "
                            "centre of mass / geometry, Rg (plain and mass weighted), gyration tensor, principal moments, asphericity, acylindricity, relative shape anisotropy, RDF counts and normalisation, density, DRID (partner bookkeeping + moments), dipole moment of neutral charge sets")
